@@ -189,12 +189,11 @@ def _cf2d_cases():
                          "len(kwargs) == len(%s)" % KW,
                          "forall(i, 0 <= i < k, kwargs[i] == drop_rs(%s[i]))" % KW,
                          "forall(i, k <= i < len(kwargs), kwargs[i] == %s[i])" % KW]),
-                     2: dict(index='k', mutates=['kwargs', 'dfs_features'], elementwise=True, invariant=[
-                         "len(kwargs) == len(%s) and len(dfs_features) == len(sigs)" % KW,
+                     # (the entries of the option list are only read here: no assumption about their being distinct objects)
+                     2: dict(index='k', mutates=['dfs_features'], invariant=[
+                         "len(dfs_features) == len(sigs)",
                          "forall(i, 0 <= i < k, dfs_features[i] == relabel(epoch_of(%s, %s, i), %s[i]))" % (flat_table, T, KW),
-                         "forall(i, k <= i < len(sigs), dfs_features[i] == epoch_of(%s, %s, i))" % (flat_table, T),
-                         "forall(i, k <= i < len(kwargs) and i >= 1, kwargs[i] == drop_rs(%s[i]))" % KW,
-                         "implies(k == 0, kwargs[0] == drop_opt('center_extrema', drop_rs(%s[0])))" % KW])}
+                         "forall(i, k <= i < len(sigs), dfs_features[i] == epoch_of(%s, %s, i))" % (flat_table, T)])}
         out.append(dict(
             label='axis=None,kw=%s' % kl,
             params=dict(common, **{KW: kt, 'axis': ('const', None)}),
